@@ -14,6 +14,7 @@ package props
 
 import (
 	"bytes"
+	"errors"
 	"fmt"
 	"testing"
 	"time"
@@ -424,6 +425,34 @@ func c02Check(c *core.Case, sp *c02Spec, bitsPerByte int) {
 	// And exactly once.
 	if _, _, uerr := c02Unseal(rb, sp.offR, sp.ovR, wire, p.sBA); uerr == nil {
 		c.Fatalf("original frame accepted twice")
+	}
+
+	// Altered copies that arrive after the authentic frame was accepted (a
+	// flooded frame changed under way by another forwarder): rejected like the
+	// early ones, and not with the error the ping parser takes for "the same
+	// frame once more" (it hands such frames to the handlers).
+	late := 0
+	for k := 0; k < 12 && len(positions) > 0; k++ {
+		i := positions[c.Pick("late.pos", len(positions))]
+		if c02MustAccept(l.region(i)) {
+			continue
+		}
+		mut := append([]byte(nil), wire...)
+		mut[i] ^= 1 << c.Uniform("late.bit", 0, 7)
+		if c.Bool("late.newer") && i != 15 {
+			mut[15] += byte(c.Int("late.ahead", 1, 100)) // sequence field moved ahead as well
+		}
+		msg, perr, uerr := c02Unseal(rb, sp.offR, sp.ovR, mut, p.sBA)
+		if perr == nil && uerr == nil {
+			c.Fatalf("altered copy (byte %d, %s) of an already accepted frame unsealed (payload delivered: %q)", i, l.region(i), trunc(string(msg), 40))
+		}
+		if perr == nil && errors.Is(uerr, state.ErrImmediateDuplicateFrame) {
+			c.Fatalf("altered copy (byte %d, %s) of an already accepted frame is reported as the same frame once more (%v): the ping parser hands such frames to the handlers", i, l.region(i), uerr)
+		}
+		late++
+	}
+	if late > 0 {
+		c.Class("altered-copies-after-the-authentic-frame")
 	}
 
 	// Must-accept mutants, each on a freshly sealed frame (acceptance consumes
